@@ -33,6 +33,7 @@ func runC07(c *Check) {
 	c07Persisted(c, P, r)
 	c07LockHolders(c, P, r)
 	c07RemoveExact(c, P+".O9", r)
+	c07ContainerInit(c, P+".O9", r)
 	c07TeardownOrder(c, P+".O8", r)
 	c07LockOrder(c, P+".O8", r)
 	r.LA.ReportLeaks(c, P+".O8", r.Funcs)
@@ -266,6 +267,21 @@ func c07CloseOnce(c *Check, P string, r *GCRoles) {
 	// the signal the subscription raises
 	ssig := CloseSites(r.SubClose, func(v ssa.Value) bool { return AllOrigins(v, IsFieldLoad(r.SClosing)) })
 	c.Report(len(ssig) == 1 && !InLoop(ssig[0]), P+".O3", "SUBSCRIPTION-SIGNAL-ONCE", r.SubClose, r.SubClose.Pos(), "close(subscription closing)", "the subscription's closing signal is closed at one site")
+	// the subscription close function does its work unless the subscription is closed already: the only way past
+	// the signal and the close of the output channel is the edge on which the closed flag was found set
+	alreadyClosed, _ := BoolEdges(r.SubClose, func(v ssa.Value) bool { return AllOrigins(v, IsFieldLoad(r.SClosed)) })
+	outs := CloseSites(r.SubClose, r.isOut)
+	for k, sites := range [][]ssa.Instruction{instrsOf(ssig), instrsOf(outs)} {
+		what := []string{"closing signal", "output channel"}[k]
+		if len(sites) == 0 {
+			continue
+		}
+		re := ReachEntry(r.SubClose, NewCut().AddInstrs(sites...).AddEdges(alreadyClosed...))
+		for i, ret := range Returns(r.SubClose) {
+			c.Report(!re[ret], P+".O3", "SUBSCRIPTION-CLOSE-TOTAL", r.SubClose, ret.Pos(), fmt.Sprintf("return#%d vs close(%s)", i, what),
+				"the subscription close function returns without having closed the "+what+" only when the subscription was closed before")
+		}
+	}
 }
 
 func c07WaitGroup(c *Check, P string, r *GCRoles) {
@@ -627,6 +643,66 @@ func c07LockHolders(c *Check, P string, r *GCRoles) {
 		}
 	}
 	c.Report(true, P+".O8", "LOCK-HOLDERS-SCANNED", r.Close, r.Close.Pos(), "package scan", fmt.Sprintf("scanned %d functions for blocking operations under the subscribers write lock, the closed lock and the sending mutex", len(r.Funcs)))
+}
+
+// c07ContainerInit: the per-topic entries of the subscriber map and of the persisted log are (re)initialised with an
+// empty slice only when the topic has no entry yet — initialising an existing entry forgets its subscribers / history.
+func c07ContainerInit(c *Check, id string, r *GCRoles) {
+	n := 0
+	for _, fn := range r.Funcs {
+		AllInstrs(fn, func(in ssa.Instruction) {
+			mu, ok := in.(*ssa.MapUpdate)
+			if !ok {
+				return
+			}
+			var isMap func(ssa.Value) bool
+			what := ""
+			switch {
+			case r.isPers(mu.Map):
+				isMap, what = r.isPers, "persisted log"
+			case r.isSubs(mu.Map):
+				isMap, what = r.isSubs, "subscriber map"
+			default:
+				return
+			}
+			fresh, empty := false, false
+			switch v := firstOrigin(mu.Value).(type) {
+			case *ssa.MakeSlice:
+				fresh = true
+				if k, isC := IntConst(v.Len); isC && k == 0 {
+					empty = true
+				}
+			case *ssa.Slice:
+				if a, isA := v.X.(*ssa.Alloc); isA {
+					fresh = true
+					if p, isP := a.Type().Underlying().(*types.Pointer); isP {
+						if arr, isArr := p.Elem().Underlying().(*types.Array); isArr && arr.Len() == 0 {
+							empty = true
+						}
+					}
+				}
+			case *ssa.Const:
+				if v.IsNil() {
+					fresh, empty = true, true
+				}
+			}
+			if !fresh {
+				return
+			}
+			n++
+			_, absent := BoolEdges(fn, func(x ssa.Value) bool {
+				e, isE := x.(*ssa.Extract)
+				if !isE || e.Index != 1 {
+					return false
+				}
+				lk, isLk := e.Tuple.(*ssa.Lookup)
+				return isLk && lk.CommaOk && isMap(lk.X) && sameValue(lk.Index, mu.Key)
+			})
+			c.Report(empty && len(absent) > 0 && GuardedBy(fn, mu, absent), id, "ENTRY-INITIALISED-ONLY-IF-ABSENT", fn, mu.Pos(), "initialisation of a topic's entry in the "+what,
+				"a topic's entry is set to a new empty slice only on the edge on which the lookup found no entry for that topic (never over an existing entry, never with pre-filled elements)")
+		})
+	}
+	c.Report(true, id, "ENTRY-INITIALISATIONS-SCANNED", nil, token.NoPos, "package scan", fmt.Sprintf("%d initialisations of per-topic entries examined", n))
 }
 
 // c07RemoveExact: unsubscribing removes exactly the given subscription from
